@@ -1,13 +1,321 @@
 /-
   C12 — Digest authentication succeeds iff the credentials are RFC-valid.
-  (work in progress: statements are added below)
+
+  Statements only; proofs delegate to `Mhd.Proofs.Dauth*`.
+
+  Model (`Mhd.Model.Dauth`, `Mhd.Model.DauthArgs`): `digestCheck cfg tbl now r call` mirrors
+  `MHD_digest_auth_check3` / `MHD_digest_auth_check_digest3` → `digest_auth_check_all` →
+  `digest_auth_check_all_inner` of digestauth.c (after the repairs F6, F24, F25, F26) and composes the
+  models of C14 (`findAuthHeader`, `parseDigest`), C13 (`checkNonceNc`, `getNonceTimestamp`) and the hash
+  specifications of C16.  `checkInner … (some d)` is `digest_auth_check_all_inner` on parsed parameters `d`.
+
+  Specification (`Mhd.Proofs.DauthSpec`): `Cred` = the semantic credential (meaning of every parameter,
+  independent of quoting / case / order / white space: C14's `view`), `expectedClass` = the result class as a
+  function of the meaning (clauses in the order of the code), `RFCValid` = RFC 7616 / 2617 / 2069 validity
+  of a semantic credential for a request, an application call, a clock value and a nonce table,
+  `WithinLimits` = the documented size limits on the parameters as sent.
+
+  Quantification: every theorem is for all byte strings (user, realm, password or userdigest, method, url,
+  argument lists, header lists, every parameter value of any length), all three algorithms, qop none / auth,
+  the three user-name notations, every nonce table, clock value, binding option and application mask.
+  No unforgeability claim is made: the statements say "equals the RFC computation".
 -/
-import Mhd.Model.Dauth
+import Mhd.Proofs.DauthReplay
+import Mhd.Proofs.DauthEx
+import Mhd.Props.C16
 
 namespace Mhd.C12
-open Mhd.Dauth
+open Mhd.Dauth Mhd.Auth Mhd.Gen.Auth Mhd.Gen.Dauth
 
-theorem legacy_yes_iff (r : Res) : Legacy.ofRes r = .yes ↔ r = .ok := by
-  cases r <;> simp [Legacy.ofRes]
+/-! ## 1. The result class is a function of the meaning of the credential -/
+
+/-- `digest_auth_check_all_inner` on parsed parameters `d` answers (and leaves the nonce table) exactly as
+    `expectedClass` says for the *meaning* of `d` (`semOf d`: every value after unquoting) and the lengths of
+    the values as sent (`lenView d`, used for the size limits only): the raw slices, `quoted` flags, the two
+    unquoting buffers, `MHD_str_equal_quoted_bin_n`, `MHD_str_equal_caseless_quoted_bin_n` do not matter.
+    `WQ`, `QopParsed` are what `parse_dauth_params` guarantees (see `parsed_header`).  For a credential that
+    is not accepted `expectedClass` is the class of the first failing clause in the order of the code. -/
+theorem class_is_expected (cfg : Cfg) (tbl : Mhd.Nonce.Table) (now : Nat) (r : Req) (call : Call) (timeout maxNc : Nat)
+    (d : DAuth) (hwq : WQ d) (hqp : QopParsed d) :
+    checkInner cfg tbl now r call timeout maxNc (some d) =
+      expectedClass cfg tbl now r call timeout maxNc (semOf d) (lenView d) :=
+  checkInner_sem cfg tbl now r call timeout maxNc d hwq hqp
+
+/-- a missing or unparsable `Authorization: Digest` header is `MHD_DAUTH_WRONG_HEADER`; the table is not touched -/
+theorem no_header (cfg : Cfg) (tbl : Mhd.Nonce.Table) (now : Nat) (r : Req) (call : Call) (timeout maxNc : Nat) :
+    checkInner cfg tbl now r call timeout maxNc none = (tbl, .wrongHeader) := rfl
+
+/-! ## 2. Success iff RFC-valid -/
+
+/-- `MHD_DAUTH_OK` iff the meaning of the credential is RFC-valid and the parameters are within the size
+    limits.  `a`, `nci`, `nonce`, `t` are the algorithm, the count, the nonce and its time stamp that validity
+    speaks about (they are determined by the credential). -/
+theorem ok_iff_rfc_valid (cfg : Cfg) (tbl : Mhd.Nonce.Table) (now : Nat) (r : Req) (call : Call) (timeout maxNc : Nat)
+    (d : DAuth) (hwq : WQ d) (hqp : QopParsed d) (hr : QopRange (semOf d)) :
+    (checkInner cfg tbl now r call timeout maxNc (some d)).2 = .ok ↔
+      ∃ a nci nonce t, WithinLimits a call (semOf d) (lenView d) ∧
+        RFCValid cfg tbl now r call timeout maxNc (semOf d) a nci nonce t := by
+  rw [checkInner_sem cfg tbl now r call timeout maxNc d hwq hqp]
+  exact expected_ok_iff cfg tbl now r call timeout maxNc (semOf d) (lenView d) (lenSem_semOf d hwq) hr
+
+/-- the same at the level of meanings, for any lengths-as-sent that are coherent with the meaning -/
+theorem expected_ok_iff_valid (cfg : Cfg) (tbl : Mhd.Nonce.Table) (now : Nat) (r : Req) (call : Call) (timeout maxNc : Nat)
+    (c : Cred) (lv : LenView) (hls : LenSem c lv) (hr : QopRange c) :
+    (expectedClass cfg tbl now r call timeout maxNc c lv).2 = .ok ↔
+      ∃ a nci nonce t, WithinLimits a call c lv ∧ RFCValid cfg tbl now r call timeout maxNc c a nci nonce t :=
+  expected_ok_iff cfg tbl now r call timeout maxNc c lv hls hr
+
+/-- Non-vacuity: the credential of `Mhd.Proofs.DauthEx` (user `us\er`, realm `r"lm`, `GET /a%20b?k=v+w&e=`,
+    qop=auth, nc=0000000A, MD5) is valid, within the limits, and accepted. -/
+example : RFCValid Ex.cfg Ex.tbl 6000 Ex.req Ex.call 90 1000 Ex.cred .md5 10 Ex.nonce 5000 := Ex.valid
+example : (expectedClass Ex.cfg Ex.tbl 6000 Ex.req Ex.call 90 1000 Ex.cred (canonLv Ex.cred)).2 = .ok := Ex.accepted
+
+/-! ## 3. The public functions on a real header; rendering independence (composition with C14) -/
+
+/-- What `MHD_get_rq_dauth_params_` delivers for a request that carries a well-formed rendering `es` of a
+    credential (any order, letter case of names and scheme, optional white space, token or quoted-string, any
+    set of quoted-pairs; `username*` written as an ext-value): parameters with the guaranteed properties whose
+    meaning is `Cred.ofView (view es)` and whose lengths as sent are those of the rendering. -/
+theorem parsed_header (r : Req) (lead : (List UInt8)) (es : List Elem) (hc : CarriesDigest r lead es)
+    (hwf : WF lead es = true) (hext : ExtPlain es) :
+    ∃ d, getParams r = .ok (some d) ∧ WQ d ∧ QopParsed d ∧ QopRange (semOf d) ∧
+      semOf d = Cred.ofView (view es) ∧ lenView d = rawLenView es :=
+  getParams_rendered r lead es hc hwf hext
+
+/-- `MHD_digest_auth_check3` / `MHD_digest_auth_check_digest3` on such a request: the class is
+    `expectedClass` of the meaning of the credential; zero `nonce_timeout` / `max_nc` mean the daemon defaults. -/
+theorem digest_check_class (cfg : Cfg) (tbl : Mhd.Nonce.Table) (now : Nat) (r : Req) (call : Call) (hcall : CallOk call)
+    (lead : (List UInt8)) (es : List Elem) (hc : CarriesDigest r lead es) (hwf : WF lead es = true) (hext : ExtPlain es) :
+    digestCheck cfg tbl now r call =
+      expectedClass cfg tbl now r call (effTimeout cfg call) (effMaxNc cfg call) (Cred.ofView (view es)) (rawLenView es) := by
+  obtain ⟨d, hp, hwq, hqp, _, hsem, hlen⟩ := getParams_rendered r lead es hc hwf hext
+  rw [digestCheck_eq cfg tbl now r call hcall (some d) hp, checkInner_sem _ _ _ _ _ _ _ d hwq hqp, hsem, hlen]
+
+/-- … and it is `MHD_DAUTH_OK` iff that credential is RFC-valid (within the size limits) -/
+theorem digest_check_ok_iff (cfg : Cfg) (tbl : Mhd.Nonce.Table) (now : Nat) (r : Req) (call : Call) (hcall : CallOk call)
+    (lead : (List UInt8)) (es : List Elem) (hc : CarriesDigest r lead es) (hwf : WF lead es = true) (hext : ExtPlain es) :
+    (digestCheck cfg tbl now r call).2 = .ok ↔
+      ∃ a nci nonce t, WithinLimits a call (Cred.ofView (view es)) (rawLenView es) ∧
+        RFCValid cfg tbl now r call (effTimeout cfg call) (effMaxNc cfg call) (Cred.ofView (view es)) a nci nonce t := by
+  obtain ⟨d, hp, hwq, hqp, hr, hsem, hlen⟩ := getParams_rendered r lead es hc hwf hext
+  rw [digestCheck_eq cfg tbl now r call hcall (some d) hp, checkInner_sem _ _ _ _ _ _ _ d hwq hqp]
+  have := expected_ok_iff cfg tbl now r call (effTimeout cfg call) (effMaxNc cfg call) (semOf d) (lenView d)
+    (lenSem_semOf d hwq) hr
+  rw [hsem, hlen] at this ⊢
+  exact this
+
+/-- Rendering independence: two requests that differ only in how the same credential (the same parameters in
+    the same order of occurrence; everything else chosen independently) is written in the Authorization field
+    get the same answer and leave the same nonce table, provided both renderings respect the size limits. -/
+theorem rendering_independent (cfg : Cfg) (tbl : Mhd.Nonce.Table) (now : Nat) (r : Req) (hdrs' : List Hdr) (call : Call)
+    (hcall : CallOk call) (lead lead' : (List UInt8)) (es es' : List Elem)
+    (hc : CarriesDigest r lead es) (hc' : CarriesDigest { r with hdrs := hdrs' } lead' es')
+    (hwf : WF lead es = true) (hwf' : WF lead' es' = true) (hext : ExtPlain es) (hext' : ExtPlain es')
+    (hsame : es.map (·.item) = es'.map (·.item))
+    (hl : RawOk call (Cred.ofView (view es)) (rawLenView es)) (hl' : RawOk call (Cred.ofView (view es')) (rawLenView es')) :
+    digestCheck cfg tbl now { r with hdrs := hdrs' } call = digestCheck cfg tbl now r call := by
+  have hv : view es' = view es := by
+    funext k
+    have : ∀ (l : List Elem), view l k =
+        (l.map (·.item)).foldl (fun acc i => if i.slot = k then some i.value else acc) none := by
+      intro l; simp [view, List.foldl_map]
+    rw [this es, this es', hsame]
+  obtain ⟨d, _, hwq, _, _, hsem, hlen⟩ := getParams_rendered r lead es hc hwf hext
+  obtain ⟨d', _, hwq', _, _, hsem', hlen'⟩ := getParams_rendered _ lead' es' hc' hwf' hext'
+  rw [digest_check_class cfg tbl now r call hcall lead es hc hwf hext,
+    digest_check_class cfg tbl now _ call hcall lead' es' hc' hwf' hext', hv]
+  have hs := lenSem_semOf d hwq
+  have hs' := lenSem_semOf d' hwq'
+  rw [hsem, hlen] at hs
+  rw [hsem', hlen', hv] at hs'
+  rw [hv] at hl'
+  -- the request enters `expectedClass` only through method, url, arguments and address
+  show expectedClass cfg tbl now { r with hdrs := hdrs' } call _ _ _ _ = _
+  have : ∀ lv, expectedClass cfg tbl now { r with hdrs := hdrs' } call (effTimeout cfg call) (effMaxNc cfg call)
+      (Cred.ofView (view es)) lv =
+      expectedClass cfg tbl now r call (effTimeout cfg call) (effMaxNc cfg call) (Cred.ofView (view es)) lv := fun _ => rfl
+  rw [this]
+  exact expectedClass_congr cfg tbl now r call _ _ _ _ _ hs' hs hl' hl
+
+/-! ## 4. Single-field mutations are rejected (corollaries of §2) -/
+
+section mutations
+variable (cfg : Cfg) (tbl : Mhd.Nonce.Table) (now : Nat) (r : Req) (call : Call) (timeout maxNc : Nat)
+  (d : DAuth) (hwq : WQ d) (hqp : QopParsed d) (hr : QopRange (semOf d))
+include hwq hqp hr
+
+/-- what an accepted credential tells: use `.algo`, `.realm`, `.response` … of the validity -/
+theorem accepted_is_valid (hok : (checkInner cfg tbl now r call timeout maxNc (some d)).2 = .ok) :
+    ∃ a nci nonce t, WithinLimits a call (semOf d) (lenView d) ∧
+      RFCValid cfg tbl now r call timeout maxNc (semOf d) a nci nonce t :=
+  (ok_iff_rfc_valid cfg tbl now r call timeout maxNc d hwq hqp hr).mp hok
+
+/-- another realm -/
+theorem reject_realm (h : (semOf d).val kRealm ≠ some call.realm) :
+    (checkInner cfg tbl now r call timeout maxNc (some d)).2 ≠ .ok := fun hok => by
+  obtain ⟨_, _, _, _, _, hv⟩ := accepted_is_valid cfg tbl now r call timeout maxNc d hwq hqp hr hok
+  exact h hv.realm
+
+/-- a user name that does not denote the expected user in any of the three notations -/
+theorem reject_username (h : ∀ a, ¬ UserOk a call (semOf d)) :
+    (checkInner cfg tbl now r call timeout maxNc (some d)).2 ≠ .ok := fun hok => by
+  obtain ⟨a, _, _, _, _, hv⟩ := accepted_is_valid cfg tbl now r call timeout maxNc d hwq hqp hr hok
+  exact h a hv.user
+
+/-- a `uri` that does not denote the request's path and arguments -/
+theorem reject_uri (h : ∀ u, (semOf d).val kUri = some u → checkUriMatch cfg.strictUnescape u r.url r.args = false) :
+    (checkInner cfg tbl now r call timeout maxNc (some d)).2 ≠ .ok := fun hok => by
+  obtain ⟨_, _, _, _, _, hv⟩ := accepted_is_valid cfg tbl now r call timeout maxNc d hwq hqp hr hok
+  obtain ⟨u, h1, _, h3⟩ := hv.uri
+  rw [h u h1] at h3; cases h3
+
+/-- an unknown, a `-sess` or a not allowed algorithm -/
+theorem reject_algorithm (h : d.algo3 = algoInvalid ∨ d.algo3 ≠ (d.algo3 &&& call.malgo3) ∨ (d.algo3 &&& algoSession) ≠ 0) :
+    (checkInner cfg tbl now r call timeout maxNc (some d)).2 ≠ .ok := fun hok => by
+  obtain ⟨_, _, _, _, _, hv⟩ := accepted_is_valid cfg tbl now r call timeout maxNc d hwq hqp hr hok
+  obtain ⟨h1, h2, h3, _⟩ := hv.algo
+  rcases h with h | h | h
+  · exact h1 h
+  · exact h h2
+  · exact h h3
+
+/-- an unknown qop, `auth-int`, or a qop the application does not allow -/
+theorem reject_qop (h : (d.qop ≠ qopNone ∧ d.qop ≠ qopAuth) ∨ d.qop ≠ (d.qop &&& call.mqop)) :
+    (checkInner cfg tbl now r call timeout maxNc (some d)).2 ≠ .ok := fun hok => by
+  obtain ⟨_, _, _, _, _, hv⟩ := accepted_is_valid cfg tbl now r call timeout maxNc d hwq hqp hr hok
+  obtain ⟨h1, h2⟩ := hv.qop
+  rcases h with ⟨ha, hb⟩ | h
+  · rcases h1 with h1 | h1
+    · exact ha h1
+    · exact hb h1
+  · exact h h2
+
+/-- the response of an accepted credential is the hexadecimal text of the RFC value for the credential's own
+    nonce, nc, cnonce, qop and uri, the request's method and the configured user, realm and password / H(A1);
+    hence a changed response, nc text, cnonce, or nonce text is rejected unless that equation still holds -/
+theorem response_is_rfc_value (hok : (checkInner cfg tbl now r call timeout maxNc (some d)).2 = .ok) :
+    ∃ a nci nonce uri mid h1 resp, (semOf d).val kNonce = some nonce ∧ (semOf d).val kUri = some uri ∧
+      CountOk maxNc (semOf d) nci mid ∧ ha1Hex a call = .ok h1 ∧ (semOf d).val kResponse = some resp ∧
+      hexToBin resp = some (rfcResponse a h1 nonce mid uri r.method) := by
+  obtain ⟨a, nci, nonce, t, _, hv⟩ := accepted_is_valid cfg tbl now r call timeout maxNc d hwq hqp hr hok
+  obtain ⟨u, mid, h1, resp, bin, e1, e2, e3, e4, e5, _, _, e8⟩ := hv.response
+  exact ⟨a, nci, nonce, u, mid, h1, resp, hv.nonceVal.1, e1, e2, e3, e4, by rw [e5, e8]⟩
+
+/-- a nonce that is older than the timeout -/
+theorem reject_expired (h : ∀ n t, (semOf d).val kNonce = some n → Mhd.Nonce.getNonceTimestamp n n.length = .ts t →
+      Mhd.Nonce.trim (Mhd.Nonce.sub64 now t) > (timeout * 1000) % 2 ^ Mhd.Gen.Nonce.timeoutBits) :
+    (checkInner cfg tbl now r call timeout maxNc (some d)).2 ≠ .ok := fun hok => by
+  obtain ⟨_, _, n, t, _, hv⟩ := accepted_is_valid cfg tbl now r call timeout maxNc d hwq hqp hr hok
+  exact hv.nonceVal.2.2.2 (h n t hv.nonceVal.1 hv.nonceVal.2.2.1)
+
+/-- a nonce / count that the nonce table does not accept (never issued, evicted, count used or behind the
+    window — see C13 for what `checkNonceNc … = ok` means on a reachable table) -/
+theorem reject_unregistered (h : ∀ n t c, (semOf d).val kNonce = some n → (Mhd.Nonce.checkNonceNc tbl n t c).2 ≠ .ok) :
+    (checkInner cfg tbl now r call timeout maxNc (some d)).2 ≠ .ok := fun hok => by
+  obtain ⟨_, c, n, t, _, hv⟩ := accepted_is_valid cfg tbl now r call timeout maxNc d hwq hqp hr hok
+  exact h n t c hv.nonceVal.1 hv.fresh
+
+/-- with a binding option: a nonce that this daemon does not make for this client / resource / realm -/
+theorem reject_other_conditions (hb : cfg.bindType ≠ bindNone)
+    (h : ∀ a n t, (semOf d).val kNonce = some n → calcNonce cfg r call.realm a t ≠ some n) :
+    (checkInner cfg tbl now r call timeout maxNc (some d)).2 ≠ .ok := fun hok => by
+  obtain ⟨a, _, n, t, _, hv⟩ := accepted_is_valid cfg tbl now r call timeout maxNc d hwq hqp hr hok
+  exact h a n t hv.nonceVal.1 (hv.bind hb)
+
+end mutations
+
+/-- Replay: once a credential has been accepted on a reachable nonce table, every later credential with the
+    same nonce and the same nc text (and the same qop class) is rejected — for any request, clock value,
+    daemon configuration and application arguments. -/
+theorem replay_rejected (size : Nat) (hist : List Mhd.Nonce.Ev) (cfg cfg' : Cfg) (tbl : Mhd.Nonce.Table)
+    (hrel : Mhd.Nonce.TblRel size tbl hist)
+    (now now' : Nat) (r r' : Req) (call call' : Call) (timeout timeout' maxNc maxNc' : Nat) (d d' : DAuth)
+    (hwq : WQ d) (hqp : QopParsed d) (hwq' : WQ d') (hqp' : QopParsed d')
+    (hok : (checkInner cfg tbl now r call timeout maxNc (some d)).2 = .ok)
+    (hn : (semOf d').val kNonce = (semOf d).val kNonce) (hnc : (semOf d').val kNc = (semOf d).val kNc)
+    (hq : d'.qop = d.qop) :
+    (checkInner cfg' (checkInner cfg tbl now r call timeout maxNc (some d)).1 now' r' call' timeout' maxNc' (some d')).2 ≠ .ok := by
+  rw [checkInner_sem cfg tbl now r call timeout maxNc d hwq hqp] at hok ⊢
+  rw [checkInner_sem cfg' _ now' r' call' timeout' maxNc' d' hwq' hqp']
+  exact replay_rejected_sem size hist cfg cfg' tbl hrel now now' r r' call call' timeout timeout' maxNc maxNc'
+    (semOf d) (semOf d') (lenView d) (lenView d') hok hn hnc hq
+
+/-- every table reached from the empty one by registrations and presentations is such a table -/
+example (size : Nat) (ops : List Mhd.Nonce.Op) (hwf : ∀ o ∈ ops, o.Wf) :
+    Mhd.Nonce.TblRel size (Mhd.Nonce.run size ops).1 (Mhd.Nonce.run size ops).2 := Mhd.Nonce.run_rel size ops hwf
+
+/-! ## 5. Memory safety of the two stack buffers -/
+
+/-- For every input whatsoever — any parameters, parsed or not — the check never writes beyond
+    `hash1_bin[MAX_DIGEST]` (the decoded `response`: fix F24) nor beyond `tmp1[128]`. -/
+theorem no_buffer_overflow (cfg : Cfg) (tbl : Mhd.Nonce.Table) (now : Nat) (r : Req) (call : Call) (timeout maxNc : Nat)
+    (p : Option DAuth) :
+    (checkInner cfg tbl now r call timeout maxNc p).2 ≠ .fault .hash1Overflow ∧
+    (checkInner cfg tbl now r call timeout maxNc p).2 ≠ .fault .tmp1Overflow := by
+  have h := checkInner_no_overflow cfg tbl now r call timeout maxNc p
+  exact ⟨fun e => h (Or.inl e), fun e => h (Or.inr e)⟩
+
+set_option maxRecDepth 100000 in
+/-- the `response` values that used to overflow (65 … 128 hexadecimal digits with a 32-byte digest) are now
+    `MHD_DAUTH_RESPONSE_WRONG` without being decoded -/
+example : stageResponse .sha256 Ex.req Ex.call
+    { slots := fun k => if k = kResponse then some ⟨0, List.replicate 128 97, false⟩ else none,
+      userhash := false, algo3 := algoSha256, qop := qopNone } [] = .error .responseWrong := by
+  rfl
+
+/-! ## 6. The deprecated functions -/
+
+/-- `MHD_digest_auth_check2` / `_check_digest2` (and `_check` / `_check_digest` with MD5): `MHD_YES` iff the new
+    function answers `MHD_DAUTH_OK` with `max_nc = 0` (default), qop `auth` only and the algorithm mask of `algo` -/
+theorem legacy_yes_iff (cfg : Cfg) (tbl : Mhd.Nonce.Table) (now : Nat) (r : Req) (realm username : (List UInt8)) (secret : Secret)
+    (nonceTimeout algo m : Nat) (hm : legacyMalgo algo = some m) :
+    (legacyCheck cfg tbl now r realm username secret nonceTimeout algo).2 = .yes ↔
+      (digestCheck cfg tbl now r ⟨realm, username, secret, nonceTimeout, 0, mqopAuth, m⟩).2 = .ok := by
+  simp only [legacyCheck, hm]
+  cases (digestCheck cfg tbl now r ⟨realm, username, secret, nonceTimeout, 0, mqopAuth, m⟩).2 <;> simp [Legacy.ofRes]
+
+/-- `MHD_INVALID_NONCE` iff the class is one of the three nonce classes -/
+theorem legacy_invalid_nonce_iff (cfg : Cfg) (tbl : Mhd.Nonce.Table) (now : Nat) (r : Req) (realm username : (List UInt8))
+    (secret : Secret) (nonceTimeout algo m : Nat) (hm : legacyMalgo algo = some m) :
+    (legacyCheck cfg tbl now r realm username secret nonceTimeout algo).2 = .invalidNonce ↔
+      (digestCheck cfg tbl now r ⟨realm, username, secret, nonceTimeout, 0, mqopAuth, m⟩).2 ∈
+        [Res.nonceStale, Res.nonceWrong, Res.nonceOtherCond] := by
+  simp only [legacyCheck, hm]
+  cases (digestCheck cfg tbl now r ⟨realm, username, secret, nonceTimeout, 0, mqopAuth, m⟩).2 <;> simp [Legacy.ofRes]
+
+example : legacyMalgo algAuto = some malgoAnyNonSession ∧ legacyMalgo algMd5 = some malgoMd5 ∧
+    legacyMalgo algSha256 = some malgoSha256 ∧ legacyMalgo 7 = none := by decide
+
+/-! ## 7. The hashes are the library's hash functions (composition with C16) -/
+
+/-- `Algo.hash` — used by the model for H(A1), H(A2), the response, the userhash and the nonce — is what the
+    incremental C implementation computes for *any* sequence of `digest_update` chunks with that content
+    (any context left over from a previous use, any alignment of the chunks). -/
+theorem hash_is_implementation_md5 (c : Mhd.Hash.Ctx (Mhd.Hash.R4 UInt32)) (hc : c.buffer.length = 64)
+    (chunks : List (Nat × List UInt8)) :
+    Mhd.Hash.run Mhd.Hash.Md5.alg c chunks = .ok (Algo.md5.hash (Mhd.C16.message chunks), Mhd.Hash.wiped Mhd.Hash.Md5.alg) :=
+  Mhd.C16.md5_chunks c hc chunks
+
+theorem hash_is_implementation_sha256 (c : Mhd.Hash.Ctx (Mhd.Hash.R8 UInt32)) (hc : c.buffer.length = 64)
+    (chunks : List (Nat × List UInt8)) :
+    Mhd.Hash.run Mhd.Hash.Sha256.alg c chunks =
+      .ok (Algo.sha256.hash (Mhd.C16.message chunks), Mhd.Hash.wiped Mhd.Hash.Sha256.alg) :=
+  Mhd.C16.sha256_chunks c hc chunks
+
+theorem hash_is_implementation_sha512_256 (c : Mhd.Hash.Ctx (Mhd.Hash.R8 UInt64)) (hc : c.buffer.length = 128)
+    (chunks : List (Nat × List UInt8)) (hl : Mhd.C16.sizeT chunks) :
+    Mhd.Hash.run Mhd.Hash.Sha512.alg c chunks =
+      .ok (Algo.sha512.hash (Mhd.C16.message chunks), Mhd.Hash.wiped Mhd.Hash.Sha512.alg) :=
+  Mhd.C16.sha512_256_chunks c hc chunks hl
+
+/-- e.g. H(A1) = `digest_update (username); ':'; digest_update (realm); ':'; digest_update_str (password)` -/
+example (c : Mhd.Hash.Ctx (Mhd.Hash.R4 UInt32)) (hc : c.buffer.length = 64) (u rl pw : List UInt8) :
+    Mhd.Hash.run Mhd.Hash.Md5.alg c [(0, u), (0, [58]), (0, rl), (0, [58]), (0, pw)] =
+      .ok (userdigest .md5 u rl pw, Mhd.Hash.wiped Mhd.Hash.Md5.alg) := by
+  rw [hash_is_implementation_md5 c hc]
+  simp [Mhd.C16.message, userdigest]
+
+/-- `MHD_bin_to_hex` and `MHD_hex_to_bin` are inverse (the response is compared after decoding: either letter case) -/
+theorem hex_roundtrip (b : (List UInt8)) (h : b ≠ []) : hexToBin (binToHex b) = some b := hexToBin_binToHex b h
 
 end Mhd.C12
